@@ -69,7 +69,10 @@ var urlPolicyNames = []string{"true", "false", "noquery", "host=good.example", "
 var styleProps = []string{"color", "background-color", "font-size", "text-align", "width", "margin", "x-prop", "float",
 	"font", "border", "padding", "background", "outline", "list-style", "border-top", "text-decoration"}
 var defaultHandledProps = []string{"color", "background-color", "font-size", "text-align", "width", "margin", "float",
-	"font", "border", "padding", "background", "outline", "list-style", "border-top", "text-decoration"}
+	"font", "border", "padding", "background", "outline", "list-style", "border-top", "text-decoration",
+	// long-tail names: no handler of their own in most CSS tables, but close to several that exist
+	"font-variant-ligatures", "background-position-x", "border-inline-start", "margin-inline", "text-decoration-thickness",
+	"font-feature-settings", "overflow-wrap", "border-top-left-radius", "list-style-position"}
 var styleVals = []string{"red", "#fff", "12px", "center", "50%", "url(http://x.example/y.png)", "expression(alert(1))",
 	"r\\65 d", "javascript:x", "1", "123456789", "bold", "left", "blue", "RED", "12PX",
 	// shorthand values of four and more tokens
@@ -88,6 +91,7 @@ type Vocab struct {
 	StyleProps []string
 	StyleVals  []string
 	HotProps   []string // style properties the recipe itself allows
+	HotURLs    []string // URLs of schemes the recipe registers (custom checks, data URIs)
 }
 
 var shorthandProps = map[string]bool{"font": true, "border": true, "padding": true, "background": true, "outline": true,
@@ -233,7 +237,7 @@ func GenRecipe(r *RNG, opt GenOpts) Recipe {
 	case 0, 1, 2, 3:
 		rc.Base = "ugc"
 	case 4:
-		rc.Base = "strict"
+		rc.Base = r.Pick([]string{"strict", "strict", "striptags"})
 	default:
 		rc.Base = "new"
 	}
@@ -409,6 +413,7 @@ func VocabOf(rc Recipe, fresh string) Vocab {
 	addSP, sps := set()
 	addSV, svs := set()
 	addHP, hps := set()
+	addHU, hus := set()
 	var pats []string
 	for _, o := range rc.Ops {
 		switch o.K {
@@ -441,6 +446,13 @@ func VocabOf(rc Recipe, fresh string) Vocab {
 		case "AllowURLSchemes", "AllowURLSchemeWithCustomPolicy":
 			for _, s := range o.Names {
 				addURL(s+"://good.example/p/q?x=1", s+":opaque")
+				addHU(s+"://good.example/p/q?x=1", s+"://example.com/p/", s+"://good.example/other?x=1", s+"://bad.example/p/")
+			}
+		case "AllowDataURIImages":
+			for _, u := range urlSamples {
+				if strings.HasPrefix(u, "data:") {
+					addHU(u)
+				}
 			}
 		}
 	}
@@ -471,7 +483,7 @@ func VocabOf(rc Recipe, fresh string) Vocab {
 	addSP(styleProps...)
 	addSP("-webkit-color", "COLOR", "mso-width")
 	addSV(styleVals...)
-	return Vocab{Els: els(), Attrs: ats(), Vals: vals(), URLs: urls(), StyleProps: sps(), StyleVals: svs(), HotProps: hps()}
+	return Vocab{Els: els(), Attrs: ats(), Vals: vals(), URLs: urls(), StyleProps: sps(), StyleVals: svs(), HotProps: hps(), HotURLs: hus()}
 }
 
 // Themed narrows a vocabulary to a few names and values, so that the same element, URL,
@@ -492,6 +504,7 @@ func (v Vocab) Themed(r *RNG) Vocab {
 		StyleProps: pick(v.StyleProps, 2, 4),
 		StyleVals:  pick(v.StyleVals, 2, 4),
 		HotProps:   v.HotProps,
+		HotURLs:    pick(v.HotURLs, 2, 4),
 	}
 	// keep URL- and style-carrying attributes in play
 	t.Attrs = append(t.Attrs, "href", "src", "style")
@@ -605,6 +618,9 @@ func (g *inGen) styleValue() string {
 func (g *inGen) attrValue(name string) string {
 	switch name {
 	case "href", "src", "cite", "action", "formaction", "xlink:href":
+		if len(g.v.HotURLs) > 0 && g.r.Bool(0.45) {
+			return g.r.Pick(g.v.HotURLs)
+		}
 		if g.r.Bool(0.85) {
 			return g.entityObfuscate(g.r.Pick(g.v.URLs))
 		}
@@ -776,6 +792,28 @@ func GenInput(r *RNG, v Vocab, maxNodes int) []byte {
 		b = append(append(append([]byte{}, b[:j]...), b[i:j]...), b[j:]...)
 	}
 	return b
+}
+
+// GenGiantToken produces an input dominated by ONE token of 70 KB - 1.1 MB (text run, attribute
+// value, comment, data URI or raw text): size-gated limits and fast paths only show there.
+func GenGiantToken(r *RNG, v Vocab) []byte {
+	n := []int{70000, 300000, 1100000}[r.Intn(3)] + r.Intn(5000)
+	var sb strings.Builder
+	sb.WriteString(string(GenInput(r, v, 3)))
+	switch r.Intn(5) {
+	case 0:
+		sb.WriteString("<p>" + strings.Repeat("lorem ipsum ", n/12) + "</p>")
+	case 1:
+		sb.WriteString(`<a href="http://example.com/` + strings.Repeat("p", n) + `" title="t">l</a>`)
+	case 2:
+		sb.WriteString("<!-- " + strings.Repeat("c", n) + " -->")
+	case 3:
+		sb.WriteString(`<img src="data:image/png;base64,` + strings.Repeat("AAAA", n/4) + `" alt="x">`)
+	default:
+		sb.WriteString("<textarea>" + strings.Repeat("x<y ", n/4) + "</textarea>")
+	}
+	sb.WriteString(string(GenInput(r, v, 3)))
+	return []byte(sb.String())
 }
 
 // GenLongInput produces an input of 4-20 KB with (usually) one token that is
